@@ -283,20 +283,49 @@ def r2_default(ctx):
                 text_="Tensor.fromUncompressed")
     f = ctx.method("Fiber", "_fillempty")
     okl = False
+    guarded = None
     for r in pat.returns(f):
         v = r.value
-        if isinstance(v, ast.Call) and text(v.func) == "Payload.get" and v.args and \
-                isinstance(v.args[0], ast.Call) and isinstance(v.args[0].func, ast.Attribute) \
-                and v.args[0].func.attr == "getDefault" and \
-                isinstance(v.args[0].func.value, ast.Name):
-            lv = v.args[0].func.value.id
-            for w in f.own_nodes():
-                if isinstance(w, ast.While) and text(w.test).replace(" ", "") == \
-                        "isinstance(%s.payloads[0],Fiber)" % lv and any(
+        if not (isinstance(v, ast.Call) and text(v.func) == "Payload.get" and v.args):
+            continue
+        # every value the unboxed result can hold is some <x>.getDefault()
+        srcs = [v.args[0]]
+        if isinstance(v.args[0], ast.Name):
+            facts, is_param = ctx.ty.facts_at(f, v.args[0].id, v.args[0])
+            srcs = [fa.value for fa in facts if fa.kind == "expr" and not fa.path]
+            if is_param or len(srcs) != len(facts):
+                continue
+        if not srcs or not all(isinstance(x, ast.Call) and isinstance(x.func, ast.Attribute)
+                               and x.func.attr == "getDefault" and not x.args for x in srcs):
+            continue
+        lvs = [x.func.value.id for x in srcs if isinstance(x.func.value, ast.Name)]
+        for w in f.own_nodes():
+            if not isinstance(w, ast.While):
+                continue
+            conj = [t for t, pol in pat.conjuncts(w.test) if pol]
+            for k, t in enumerate(conj):
+                for lv in lvs:
+                    if text(t).replace(" ", "") == "isinstance(%s.payloads[0],Fiber)" % lv and any(
                             isinstance(x, ast.Assign) and text(x.targets[0]) == lv and
                             text(x.value).replace(" ", "") == "%s.payloads[0]" % lv
                             for x in w.body):
-                    okl = True
+                        okl = True
+                        ne = {"len(%s.payloads)>0" % lv, "0<len(%s.payloads)" % lv,
+                              "%s.payloads" % lv, "len(%s)>0" % lv, "0<len(%s)" % lv,
+                              "len(%s.coords)>0" % lv, "0<len(%s.coords)" % lv,
+                              "%s.coords" % lv, "len(%s.payloads)!=0" % lv,
+                              "0!=len(%s.payloads)" % lv}
+                        guarded = any(text(c).replace(" ", "") in ne for c in conj[:k])
+    if okl and guarded is False:
+        ctx.bad("C13.R2", f, f.node, "_fillempty looks for the leaf fiber through "
+                "`payloads[0]` without testing that there is a first payload: for "
+                "an all-default nest the fiber is empty and uncompress() raises "
+                "IndexError instead of returning the nest "
+                "(Fiber.fromUncompressed([0, 0, 0]).uncompress())",
+                text_="_fillempty empty fiber")
+    elif okl:
+        ctx.ok("C13.R2", f, f.node, "the descent to the leaf fiber stops at an empty fiber",
+               text_="_fillempty empty fiber")
     if okl:
         ctx.ok("C13.R2", f, f.node, "missing entries are filled with the leaf "
                "fiber's default", text_="_fillempty")
